@@ -273,6 +273,21 @@ def data_libraries(tier, seed):
                 chain = ok and any(x[1] in remaps for x in val)
                 if not ok or chain:
                     viol.append({'id': '%s-remap-%s' % (name, key), 'input': {key: val}, 'observed': 'malformed' if not ok else 'target is itself remapped', 'expected': 'list of [coefficient, target], targets not remapped'})
+            # the table of the LOADED scheme object is the file's table, and stays so while the library is used (a decomposition reads it only)
+            import copy
+            n += 1
+            loaded = getattr(lib.scheme, 'remaps', None)
+            norm = lambda t: {str(k_): [[x[0], str(x[1])] for x in v_] for k_, v_ in (t or {}).items()}
+            if norm(loaded) != norm(remaps):
+                viol.append({'id': name + '-remaps-loaded', 'input': name, 'observed': 'the loaded scheme object carries a remap table that differs from scheme.yaml', 'expected': 'the table of the file'})
+            before = copy.deepcopy(norm(loaded))
+            for smi in ('CCO', 'CC(C)C', 'C=CC', 'c1ccccc1', 'CC(=O)O', 'C1CCCCC1', '[CH3]', 'CCN'):
+                real.outcome(lib.GetDescriptors, smi)
+            after = norm(getattr(lib.scheme, 'remaps', None))
+            if after != before or any(x[1] in after for v_ in after.values() for x in v_):
+                extra = sorted(set(after) - set(before))[:4]
+                viol.append({'id': name + '-remaps-after-use', 'input': {'library': name, 'after': 'GetDescriptors of eight small molecules'}, 'observed': 'remap table changed by use (new keys: %s)' % extra,
+                             'expected': 'the table as loaded, chain-free'})
             # uncertainty block
             uq = lib.uq_contents
             if uq:
@@ -310,3 +325,10 @@ UNITS = [
 ]
 for _u in UNITS:
     _u.branch_timeout_ms = 300
+# the remap table stays as loaded: frame obligations of the two functions that read it (units of C02)
+from . import C02 as _c02      # noqa: E402
+for _u in _c02.UNITS:
+    if 'remaps]' in _u.name:
+        if getattr(_u, 'world_factory', None) is None:
+            _u.world_factory = _c02.world
+        UNITS.append(_u)
